@@ -10,7 +10,8 @@ import (
 // the stock logger at its default level without the stderr I/O and the timestamps. (The
 // registry rejects duplicate names through Panicf.) Fatal/Fatalf panic too instead of
 // exiting the process, so that the harness can attribute them.
-type SilentLogger struct{}
+// P is the prefix the logger was obtained for (syslog.Pref), "" for the root logger.
+type SilentLogger struct{ P string }
 
 // FormatLogs makes the silent logger format what it is given at error level, as the stock
 // logger does (the formatting calls the Error / Format methods of the logged values, on the
@@ -19,16 +20,16 @@ var FormatLogs bool
 
 var _ syslog.Logger = SilentLogger{}
 
-func (SilentLogger) Level(lv syslog.Lv) syslog.Logger { return SilentLogger{} }
-func (SilentLogger) Pref(pref any) syslog.Logger      { return SilentLogger{} }
-func (SilentLogger) Trace(v ...any)                   {}
-func (SilentLogger) Tracef(format string, v ...any)   {}
-func (SilentLogger) Debug(v ...any)                   {}
-func (SilentLogger) Debugf(format string, v ...any)   {}
-func (SilentLogger) Info(v ...any)                    {}
-func (SilentLogger) Infof(format string, v ...any)    {}
-func (SilentLogger) Warn(v ...any)                    {}
-func (SilentLogger) Warnf(format string, v ...any)    {}
+func (l SilentLogger) Level(lv syslog.Lv) syslog.Logger { return l }
+func (SilentLogger) Pref(pref any) syslog.Logger        { return SilentLogger{P: fmt.Sprint(pref)} }
+func (SilentLogger) Trace(v ...any)                     {}
+func (SilentLogger) Tracef(format string, v ...any)     {}
+func (SilentLogger) Debug(v ...any)                     {}
+func (SilentLogger) Debugf(format string, v ...any)     {}
+func (SilentLogger) Info(v ...any)                      {}
+func (SilentLogger) Infof(format string, v ...any)      {}
+func (SilentLogger) Warn(v ...any)                      {}
+func (SilentLogger) Warnf(format string, v ...any)      {}
 func (SilentLogger) Error(v ...any) {
 	if FormatLogs {
 		_ = fmt.Sprint(v...)
